@@ -2,17 +2,31 @@
 //! scripted peer on loopback, real time, with the connection-state listener used as a lock-step
 //! gate (the task is blocked inside the listener callback while the harness acts).
 //!
-//! life r<min ms>.<max ms> m<max timeouts|0> t<request timeout ms> <behaviours> <stops>
-//!   behaviours: `/`-joined, one per connection attempt (the last one repeats):
+//! life r<min ms>.<max ms> m<max timeouts|0> t<request timeout ms> [tls:]<behaviours> <stops>
+//!   behaviours: `/`-joined, one per connection attempt (the last one repeats; `<b>*<n>` stands
+//!               for n attempts with behaviour b):
 //!               refuse | close | garbage | silent | serve
+//!               with the prefix `tls:` the channel is the production TLS client
+//!               (`create_tls_client_task_with_options`, self-signed pair ss_a / ss_b of
+//!               $VERIF_CERTS) and the behaviours are
+//!               refuse | hsclose | hsgarbage | hscert | serve | close
+//!               (hsclose: accept the TCP connection and close it at once; hsgarbage: accept and
+//!               answer the ClientHello with bytes that are no TLS record; hscert: a rodbus TLS
+//!               server presenting a certificate the client does not expect — three ways of
+//!               making the handshake fail after the TCP connect succeeded; serve: an in-process
+//!               rodbus TLS server (`create_tls_server_task`); close: the same server, shut down
+//!               as soon as the client announces `Connected`)
 //!   stops:      `,`-joined; each stop is `-` or `+`-joined actions out of
 //!               E (enable) D (disable) S (shutdown) X (drop every handle) R (submit a read)
+//!               L<0..3> (`Channel::set_decode_level`); `<stop>*<n>` stands for n copies
 //! A stop is consumed each time the task reaches a listener callback (gate) or has been quiet
 //! for IDLE ms. Output: the event log (`;`-joined) and a summary.
 use crate::util::*;
 use rodbus::client::*;
+use rodbus::server::*;
 use rodbus::*;
 use std::collections::VecDeque;
+use std::path::PathBuf;
 use std::sync::{Arc, Mutex};
 use std::time::{Duration, Instant};
 use tokio::io::{AsyncReadExt, AsyncWriteExt};
@@ -44,10 +58,143 @@ fn state_str(s: ClientState) -> String {
     }
 }
 
+fn certs() -> PathBuf {
+    PathBuf::from(std::env::var("VERIF_CERTS").unwrap_or_else(|_| "/verif/certs".into()))
+}
+
+fn cert(name: &str) -> PathBuf {
+    certs().join(format!("{name}_cert.pem"))
+}
+
+fn key(name: &str) -> PathBuf {
+    certs().join(format!("{name}_key.pem"))
+}
+
+/// the TLS client of the `tls:` mode: local certificate ss_a, the peer must present ss_b
+fn tls_client_config() -> Result<TlsClientConfig, String> {
+    TlsClientConfig::self_signed(&cert("ss_b"), &cert("ss_a"), &key("ss_a"), None, MinTlsVersion::V1_2)
+        .map_err(|e| format!("config-error:{e}"))
+}
+
+/// the in-process TLS server: `local` is the certificate it presents, the client must present ss_a
+fn tls_server_config(local: &str) -> Result<TlsServerConfig, String> {
+    TlsServerConfig::new(
+        &cert("ss_a"),
+        &cert(local),
+        &key(local),
+        None,
+        MinTlsVersion::V1_2,
+        CertificateMode::SelfSigned,
+    )
+    .map_err(|e| format!("config-error:{e}"))
+}
+
+struct LifeHandler;
+
+impl RequestHandler for LifeHandler {
+    fn read_holding_register(&self, _address: u16) -> Result<u16, ExceptionCode> {
+        Ok(0x1234)
+    }
+}
+
+/// behaviours served by an in-process rodbus TLS server rather than by a scripted socket
+fn server_side(tls: bool, b: &str) -> bool {
+    tls && matches!(b, "serve" | "close" | "hscert")
+}
+
+fn decode_level(d: u32) -> DecodeLevel {
+    match d {
+        0 => DecodeLevel::nothing(),
+        1 => DecodeLevel::nothing().application(AppDecodeLevel::FunctionCode),
+        2 => DecodeLevel::new(AppDecodeLevel::DataHeaders, FrameDecodeLevel::Header, PhysDecodeLevel::Length),
+        _ => DecodeLevel::new(AppDecodeLevel::DataValues, FrameDecodeLevel::Payload, PhysDecodeLevel::Data),
+    }
+}
+
+/// The loopback port of a case.  It is never released while the case runs (other harness
+/// processes pick ephemeral ports all the time): either a socket that is bound but does not
+/// listen holds it (a connect is refused), or a listening socket does, of which every attempt
+/// gets a duplicate.  The change-over from listening to refusing binds the new holder before the
+/// listener is closed (SO_REUSEPORT on our own sockets only, set after the first bind so that no
+/// other process can be handed the port).
+struct PortKeeper {
+    addr: std::net::SocketAddr,
+    holder: Option<tokio::net::TcpSocket>,
+    master: Option<std::net::TcpListener>,
+}
+
+impl PortKeeper {
+    fn new() -> Self {
+        let s = tokio::net::TcpSocket::new_v4().expect("socket");
+        let _ = s.set_reuseaddr(true);
+        s.bind("127.0.0.1:0".parse().unwrap()).expect("cannot reserve a port");
+        let _ = s.set_reuseport(true);
+        let addr = s.local_addr().unwrap();
+        PortKeeper { addr, holder: Some(s), master: None }
+    }
+
+    fn bind_holder(&self) -> Option<tokio::net::TcpSocket> {
+        let s = tokio::net::TcpSocket::new_v4().ok()?;
+        let _ = s.set_reuseaddr(true);
+        let _ = s.set_reuseport(true);
+        s.bind(self.addr).ok()?;
+        Some(s)
+    }
+
+    /// nothing listens any more: connects are refused (every duplicate of the listener must have
+    /// been dropped by the caller)
+    fn refuse(&mut self) {
+        if self.holder.is_none() {
+            self.holder = self.bind_holder();
+        }
+        self.master = None;
+        if self.holder.is_none() {
+            self.holder = self.bind_holder();
+        }
+    }
+
+    /// a listener for one attempt; connections nobody accepted during earlier attempts are gone
+    async fn listener(&mut self) -> tokio::net::TcpListener {
+        if self.master.is_none() {
+            let mut l = match self.holder.take() {
+                Some(h) => h.listen(64).ok(),
+                None => None,
+            };
+            if l.is_none() {
+                for _ in 0..50 {
+                    match tokio::net::TcpListener::bind(self.addr).await {
+                        Ok(x) => {
+                            l = Some(x);
+                            break;
+                        }
+                        Err(_) => tokio::time::sleep(Duration::from_millis(10)).await,
+                    }
+                }
+            }
+            let l = l.expect("cannot re-bind the listener").into_std().expect("into_std");
+            let _ = l.set_nonblocking(true);
+            self.master = Some(l);
+        }
+        let m = self.master.as_ref().unwrap();
+        while m.accept().is_ok() {}
+        tokio::net::TcpListener::from_std(m.try_clone().expect("dup")).expect("from_std")
+    }
+}
+
 async fn serve_connection(mut sock: tokio::net::TcpStream, behaviour: String) {
     match behaviour.as_str() {
-        "close" => {
+        "close" | "hsclose" => {
             drop(sock);
+        }
+        "hsgarbage" => {
+            // content type 0 is no TLS record: the handshake fails on the client
+            let _ = sock.write_all(&[0, 1, 0xFF, 0xFF, 0, 2, 1, 3]).await;
+            let mut buf = [0u8; 1024];
+            while let Ok(n) = sock.read(&mut buf).await {
+                if n == 0 {
+                    break;
+                }
+            }
         }
         "garbage" => {
             // protocol id 0xFFFF: framing error on the client
@@ -89,17 +236,48 @@ pub async fn run_life(tok: &[&str]) -> String {
     let rmax: u64 = rmax.parse().unwrap();
     let maxto: usize = tok[2][1..].parse().unwrap();
     let req_timeout: u64 = tok[3][1..].parse().unwrap();
-    let mut behaviours: VecDeque<String> = tok[4].split('/').map(|x| x.to_string()).collect();
-    let stops: Vec<&str> = if tok[5] == "-" { vec![] } else { tok[5].split(',').collect() };
+    let (tls, btok) = match tok[4].strip_prefix("tls:") {
+        Some(x) => (true, x),
+        None => (false, tok[4]),
+    };
+    // `<behaviour>*<n>`: n attempts in a row with this behaviour
+    let mut behaviours: VecDeque<String> = VecDeque::new();
+    for b in btok.split('/') {
+        match b.split_once('*') {
+            Some((x, n)) => {
+                for _ in 0..n.parse::<usize>().unwrap_or(1) {
+                    behaviours.push_back(x.to_string());
+                }
+            }
+            None => behaviours.push_back(b.to_string()),
+        }
+    }
+    // `<stop>*<n>`: n copies of the stop
+    let mut stops: Vec<&str> = Vec::new();
+    if tok[5] != "-" {
+        for st in tok[5].split(',') {
+            match st.split_once('*') {
+                Some((x, n)) => {
+                    for _ in 0..n.parse::<usize>().unwrap_or(1) {
+                        stops.push(x);
+                    }
+                }
+                None => stops.push(st),
+            }
+        }
+    }
 
     let log: Arc<Mutex<Vec<String>>> = Arc::new(Mutex::new(Vec::new()));
     let accepts = Arc::new(Mutex::new(0usize));
+    // attempts answered by the in-process TLS server (their accepts are not seen here)
+    let mut server_attempts = 0usize;
 
-    // reserve a port
-    let l = tokio::net::TcpListener::bind("127.0.0.1:0").await.unwrap();
-    let addr = l.local_addr().unwrap();
-    drop(l);
+    // reserve a port for the whole case
+    let mut port = PortKeeper::new();
+    let addr = port.addr;
     let mut listener_task: Option<tokio::task::JoinHandle<()>> = None;
+    let mut server: Option<(ServerHandle, tokio::task::JoinHandle<()>)> = None;
+    let mut cur_behaviour = String::new();
 
     let (gate_tx, mut gate_rx) = tokio::sync::mpsc::unbounded_channel();
     // the builder's setters must be independent of the order in which they are called
@@ -116,12 +294,26 @@ pub async fn run_life(tok: &[&str]) -> String {
         4 => o.max_response_timeouts(lim).max_queued_requests(16).channel_logging(cl).decode_level(dl),
         _ => o.decode_level(dl).max_response_timeouts(lim).max_queued_requests(16).channel_logging(cl),
     };
-    let (channel, task) = create_tcp_client_task_with_options(
-        HostAddr::ip(addr.ip(), addr.port()),
-        doubling_retry_strategy(Duration::from_millis(rmin), Duration::from_millis(rmax)),
-        Some(Box::new(GateListener { tx: gate_tx })),
-        options,
-    );
+    let (channel, task) = if tls {
+        let cfg = match tls_client_config() {
+            Ok(c) => c,
+            Err(e) => return e,
+        };
+        create_tls_client_task_with_options(
+            HostAddr::ip(addr.ip(), addr.port()),
+            doubling_retry_strategy(Duration::from_millis(rmin), Duration::from_millis(rmax)),
+            cfg,
+            Some(Box::new(GateListener { tx: gate_tx })),
+            options,
+        )
+    } else {
+        create_tcp_client_task_with_options(
+            HostAddr::ip(addr.ip(), addr.port()),
+            doubling_retry_strategy(Duration::from_millis(rmin), Duration::from_millis(rmax)),
+            Some(Box::new(GateListener { tx: gate_tx })),
+            options,
+        )
+    };
     let join = tokio::spawn(task.run());
     let mut handles: Vec<Channel> = vec![channel];
     let mut stop_idx = 0usize;
@@ -153,26 +345,52 @@ pub async fn run_life(tok: &[&str]) -> String {
                             t.abort();
                             let _ = t.await;
                         }
-                        if b != "refuse" {
-                            let mut bound = None;
-                            for _ in 0..50 {
-                                match tokio::net::TcpListener::bind(addr).await {
-                                    Ok(x) => {
-                                        bound = Some(x);
-                                        break;
+                        if let Some((h, t)) = server.take() {
+                            t.abort();
+                            let _ = t.await;
+                            drop(h);
+                        }
+                        cur_behaviour = b.clone();
+                        if b == "refuse" {
+                            port.refuse();
+                        } else {
+                            let l = port.listener().await;
+                            if server_side(tls, &b) {
+                                // hscert: the server presents ss_impostor, the client expects ss_b
+                                let cfg = match tls_server_config(if b == "hscert" { "ss_impostor" } else { "ss_b" }) {
+                                    Ok(c) => c,
+                                    Err(e) => return e,
+                                };
+                                let (h, t) = create_tls_server_task(
+                                    1,
+                                    l,
+                                    ServerHandlerMap::single(UnitId::new(1), LifeHandler.wrap()),
+                                    cfg,
+                                    AddressFilter::Any,
+                                    DecodeLevel::nothing(),
+                                );
+                                server = Some((h, tokio::spawn(t.run())));
+                                server_attempts += 1;
+                            } else {
+                                let accepts = accepts.clone();
+                                listener_task = Some(tokio::spawn(async move {
+                                    if let Ok((sock, _)) = l.accept().await {
+                                        *accepts.lock().unwrap() += 1;
+                                        drop(l);
+                                        serve_connection(sock, b).await;
                                     }
-                                    Err(_) => tokio::time::sleep(Duration::from_millis(10)).await,
-                                }
+                                }));
                             }
-                            let l = bound.expect("cannot re-bind the listener");
-                            let accepts = accepts.clone();
-                            listener_task = Some(tokio::spawn(async move {
-                                if let Ok((sock, _)) = l.accept().await {
-                                    *accepts.lock().unwrap() += 1;
-                                    drop(l);
-                                    serve_connection(sock, b).await;
-                                }
-                            }));
+                        }
+                    }
+                    ClientState::Connected => {
+                        // tls close: the handshake succeeded, now the server goes away
+                        if tls && cur_behaviour == "close" {
+                            if let Some((h, t)) = server.take() {
+                                t.abort();
+                                let _ = t.await;
+                                drop(h);
+                            }
                         }
                     }
                     ClientState::WaitAfterFailedConnect(d) | ClientState::WaitAfterDisconnect(d) => {
@@ -184,7 +402,6 @@ pub async fn run_life(tok: &[&str]) -> String {
                     ClientState::Shutdown => {
                         saw_shutdown = true;
                     }
-                    _ => {}
                 }
                 release = Some(rel);
             }
@@ -227,6 +444,22 @@ pub async fn run_life(tok: &[&str]) -> String {
                         if !handles.is_empty() {
                             handles.clear();
                             log.lock().unwrap().push("a:X".into());
+                        }
+                    }
+                    a if a.starts_with('L') => {
+                        if let Some(ch) = handles.first() {
+                            let d: u32 = a[1..].parse().unwrap_or(0);
+                            // a queued command like enable / disable: returns once it is queued
+                            let r = tokio::time::timeout(
+                                Duration::from_millis(1000),
+                                ch.set_decode_level(decode_level(d)),
+                            )
+                            .await;
+                            log.lock().unwrap().push(match r {
+                                Ok(Ok(())) => format!("a:L{d}"),
+                                Ok(Err(_)) => format!("a:L{d}:shutdown"),
+                                Err(_) => format!("a:L{d}:blocked"),
+                            });
                         }
                     }
                     "R" => {
@@ -321,6 +554,12 @@ pub async fn run_life(tok: &[&str]) -> String {
     if let Some(t) = listener_task.take() {
         t.abort();
     }
+    if let Some((h, t)) = server.take() {
+        t.abort();
+        let _ = t.await;
+        drop(h);
+    }
+    drop(port);
     tokio::time::sleep(Duration::from_millis(20)).await;
     let entries = log.lock().unwrap().clone();
     let l = entries.join(";");
@@ -329,7 +568,7 @@ pub async fn run_life(tok: &[&str]) -> String {
     let n_connecting = entries.iter().filter(|e| *e == "g:Connecting").count();
     let n_connected = entries.iter().filter(|e| *e == "g:Connected").count();
     let acc = *accepts.lock().unwrap();
-    let acc_ok = acc <= n_connecting + 1 && acc >= n_connected;
+    let acc_ok = acc <= n_connecting + 1 && acc + server_attempts >= n_connected;
     format!(
         "{} | shutdown_seen={} fin={} after={} acc={}",
         if l.is_empty() { "-".into() } else { l },
